@@ -92,7 +92,8 @@ def execute(case, budget=6000, cpu_s=3.0, sched=None, names=None, prompt=None, r
     else:
         names = sorted(f'{sec}.{k}' for sec, k in config_items(store.config))
     sched = case['sched'] if sched is None else sched
-    m = mon.Monitor(supplied=names, dup_demand=case.get('dup', False))
+    lenient = [n for n, p_ in case['persona'].items() if 'default_text' in p_]
+    m = mon.Monitor(supplied=names, dup_demand=case.get('dup', False), lenient=lenient)
     rec = seams.Recorder(budget=budget, sched_seed=sched[0], period=sched[1], monitor=m)
     prompt = case['prompt'] if prompt is None else prompt
     refuse = case['refuse_at'] if refuse_at == 'case' else refuse_at
@@ -130,6 +131,9 @@ def execute(case, budget=6000, cpu_s=3.0, sched=None, names=None, prompt=None, r
         m.finish()
     run.supplied = sorted(set(names) | set(m.answered))
     run.config_items = config_items(store.config)
+    if case.get('defaults'):
+        # with a [DEFAULT] section what is supplied at the end is what a reader of the final store sees
+        run.supplied = sorted(n for n in (f'{sec}.{k}' for sec, k in run.config_items) if n in case['persona'])
     run.store = store
     return run
 
@@ -267,7 +271,7 @@ def run_cli(argv, stdin=None, rec=None, fake_subprocess=None, year_forms=None, c
 # R1 for a run, and the oracles
 # ----------------------------------------------------------------------------------
 def model_for(case, run):
-    inputs = refmodel.synth_final_inputs(case, run.supplied)
+    inputs = refmodel.synth_final_inputs(case, run.supplied, run)
     return refmodel.R1Synth(case['world'], inputs, run.requested, run.field_names).run()
 
 
